@@ -21,6 +21,11 @@ type ReplySite struct {
 	Status   []int64
 	Resolved bool
 	Why      string
+	ctors    []*ssa.Call
+	// At: the instruction whose execution means that this reply was chosen: the reply invocation itself, or - when
+	// the body replied is a merge of several New*Reply(...) built on different paths of this function - the
+	// constructor call of this alternative (the site is then listed once per alternative)
+	At ssa.Instruction
 }
 
 var replyCtor = map[string]string{"NewAuthenReply": "Authen", "NewAuthorReply": "Author", "NewAcctReply": "Acct"}
@@ -55,8 +60,15 @@ func constSources(p *Program, v ssa.Value, depth int, out map[int64]bool) bool {
 		}
 	case *ssa.Call:
 		return constResults(p, x, 0, depth-1, out)
+	case *ssa.Field:
+		return structFieldConsts(p, x.X, x.Field, depth-1, out)
 	case *ssa.UnOp:
 		if x.Op == token.MUL {
+			if fa, ok := x.X.(*ssa.FieldAddr); ok {
+				if a, ok := fa.X.(*ssa.Alloc); ok && !escapesBeyondFields(a) {
+					return localFieldConsts(p, a, fa.Field, depth-1, out)
+				}
+			}
 			if a, ok := x.X.(*ssa.Alloc); ok {
 				st := allocStores(a)
 				if len(st) == 0 {
@@ -170,7 +182,32 @@ func varargElems(v ssa.Value) ([]ssa.Value, bool) {
 
 // replySiteOf resolves the body argument of a reply invocation.
 func replySiteOf(p *Program, fn *ssa.Function, c ssa.CallInstruction, bodyArg ssa.Value, depth int) ReplySite {
-	rs := ReplySite{Fn: fn, Call: c, Options: map[string][]ssa.Value{}}
+	return replySiteOf1(p, fn, c, bodyArg, depth, nil)
+}
+
+// replySitesOf: like replySiteOf, with a body merged from several constructors of this same function listed once
+// per constructor (each alternative is judged where it is built).
+func replySitesOf(p *Program, fn *ssa.Function, c ssa.CallInstruction, bodyArg ssa.Value, depth int) []ReplySite {
+	rs := replySiteOf1(p, fn, c, bodyArg, depth, nil)
+	if len(rs.ctors) < 2 || !rs.Resolved {
+		return []ReplySite{rs}
+	}
+	for _, ct := range rs.ctors {
+		if ct.Parent() != fn {
+			return []ReplySite{rs}
+		}
+	}
+	var out []ReplySite
+	for _, ct := range rs.ctors {
+		one := replySiteOf1(p, fn, c, bodyArg, depth, ct)
+		one.At = ct
+		out = append(out, one)
+	}
+	return out
+}
+
+func replySiteOf1(p *Program, fn *ssa.Function, c ssa.CallInstruction, bodyArg ssa.Value, depth int, only *ssa.Call) ReplySite {
+	rs := ReplySite{Fn: fn, Call: c, At: c, Options: map[string][]ssa.Value{}}
 	v := stripConv(bodyArg)
 	var ctors []*ssa.Call
 	var find func(v ssa.Value, d int) bool
@@ -231,7 +268,11 @@ func replySiteOf(p *Program, fn *ssa.Function, c ssa.CallInstruction, bodyArg ss
 	}
 	status := map[int64]bool{}
 	rs.Resolved = true
+	rs.ctors = ctors
 	for _, ctor := range ctors {
+		if only != nil && ctor != only {
+			continue
+		}
 		rs.Ctor = ctor
 		kind := replyCtor[ctor.Common().StaticCallee().Name()]
 		if rs.Kind != "" && rs.Kind != kind {
@@ -296,9 +337,9 @@ func allReplySites(p *Program) []ReplySite {
 			}
 			switch cc.Method.Name() {
 			case "Reply":
-				out = append(out, replySiteOf(p, fn, c, cc.Args[0], 4))
+				out = append(out, replySitesOf(p, fn, c, cc.Args[0], 4)...)
 			case "ReplyWithContext":
-				out = append(out, replySiteOf(p, fn, c, cc.Args[1], 4))
+				out = append(out, replySitesOf(p, fn, c, cc.Args[1], 4)...)
 			}
 		}
 	}
@@ -326,4 +367,203 @@ func hasStatus(rs ReplySite, v int64) bool {
 		}
 	}
 	return false
+}
+
+// escapesBeyondFields: the local struct is used other than through its fields and whole-value loads/stores.
+func escapesBeyondFields(a *ssa.Alloc) bool {
+	for _, rf := range refsOf(a) {
+		switch x := rf.(type) {
+		case *ssa.FieldAddr, *ssa.DebugRef:
+		case *ssa.UnOp:
+			if x.Op != token.MUL {
+				return true
+			}
+		case *ssa.Store:
+			if x.Addr != ssa.Value(a) {
+				return true
+			}
+		default:
+			return true
+		}
+	}
+	return false
+}
+
+// localFieldConsts: the constants field #idx of the local struct a can hold: joined over the stores into that field
+// (zero when there is none) and over the same field of struct values stored whole.
+func localFieldConsts(p *Program, a *ssa.Alloc, idx int, depth int, out map[int64]bool) bool {
+	if depth <= 0 {
+		return false
+	}
+	n := 0
+	for _, rf := range refsOf(a) {
+		switch x := rf.(type) {
+		case *ssa.FieldAddr:
+			if x.Field != idx {
+				continue
+			}
+			for _, r2 := range refsOf(x) {
+				if st, ok := r2.(*ssa.Store); ok && st.Addr == ssa.Value(x) {
+					n++
+					if !constSources(p, st.Val, depth-1, out) {
+						return false
+					}
+				} else if u, ok := r2.(*ssa.UnOp); !ok || u.Op != token.MUL {
+					if _, dbg := r2.(*ssa.DebugRef); !dbg {
+						return false // the field's address goes somewhere
+					}
+				}
+			}
+		case *ssa.Store:
+			if x.Addr == ssa.Value(a) {
+				n++
+				if !structFieldConsts(p, x.Val, idx, depth-1, out) {
+					return false
+				}
+			}
+		}
+	}
+	if n == 0 {
+		out[0] = true // zero value
+	}
+	return true
+}
+
+// structFieldConsts: the constants field #idx of struct value s can hold.
+func structFieldConsts(p *Program, s ssa.Value, idx int, depth int, out map[int64]bool) bool {
+	if depth <= 0 {
+		return false
+	}
+	switch x := s.(type) {
+	case *ssa.Phi:
+		for _, e := range x.Edges {
+			if !structFieldConsts(p, e, idx, depth-1, out) {
+				return false
+			}
+		}
+		return true
+	case *ssa.UnOp:
+		if x.Op == token.MUL {
+			if a, ok := x.X.(*ssa.Alloc); ok && !escapesBeyondFields(a) {
+				return localFieldConsts(p, a, idx, depth-1, out)
+			}
+		}
+	}
+	return false
+}
+
+// originEdge: where a chosen alternative of a merged value comes from.
+type originEdge struct {
+	blk  *ssa.BasicBlock // the block the alternative comes from
+	into *ssa.BasicBlock // for a merged alternative: the merge block (nil for the site's own block)
+}
+
+// constOrigins: the places from which value v can take one of the constants in want: the block `at` itself, or - when
+// v is a merge of alternatives (directly, or as a field of merged struct values) - the predecessor blocks of the
+// alternatives that may be one of those constants.
+func constOrigins(p *Program, v ssa.Value, want map[int64]bool, at *ssa.BasicBlock) []originEdge {
+	var out []originEdge
+	seen := map[ssa.Value]bool{}
+	may := func(cs map[int64]bool, resolved bool) bool {
+		if !resolved {
+			return true
+		}
+		for c := range cs {
+			if want[c] {
+				return true
+			}
+		}
+		return false
+	}
+	var walk func(v ssa.Value, at originEdge)
+	var walkStruct func(s ssa.Value, idx int, at originEdge)
+	walk = func(v ssa.Value, at originEdge) {
+		v = stripConv(v)
+		if seen[v] {
+			return
+		}
+		seen[v] = true
+		switch x := v.(type) {
+		case *ssa.Phi:
+			for i, e := range x.Edges {
+				cs := map[int64]bool{}
+				if !may(cs, constSources(p, e, 6, cs)) {
+					continue
+				}
+				walk(e, originEdge{blk: x.Block().Preds[i], into: x.Block()})
+			}
+			return
+		case *ssa.Field:
+			walkStruct(x.X, x.Field, at)
+			return
+		case *ssa.UnOp:
+			// a field of a local copy of a struct value (a spilled value receiver): the value copied decides
+			if fa, ok := x.X.(*ssa.FieldAddr); ok && x.Op == token.MUL {
+				if a, ok := fa.X.(*ssa.Alloc); ok && !escapesBeyondFields(a) {
+					var whole []*ssa.Store
+					fieldStores := 0
+					for _, rf := range refsOf(a) {
+						switch y := rf.(type) {
+						case *ssa.Store:
+							if y.Addr == ssa.Value(a) {
+								whole = append(whole, y)
+							}
+						case *ssa.FieldAddr:
+							if y.Field == fa.Field {
+								for _, r2 := range refsOf(y) {
+									if _, isSt := r2.(*ssa.Store); isSt {
+										fieldStores++
+									}
+								}
+							}
+						}
+					}
+					if len(whole) == 1 && fieldStores == 0 {
+						walkStruct(whole[0].Val, fa.Field, at)
+						return
+					}
+				}
+			}
+		}
+		out = append(out, at)
+	}
+	walkStruct = func(s ssa.Value, idx int, at originEdge) {
+		if phi, ok := s.(*ssa.Phi); ok && !seen[s] {
+			seen[s] = true
+			for i, e := range phi.Edges {
+				cs := map[int64]bool{}
+				if !may(cs, structFieldConsts(p, e, idx, 6, cs)) {
+					continue
+				}
+				walkStruct(e, idx, originEdge{blk: phi.Block().Preds[i], into: phi.Block()})
+			}
+			return
+		}
+		out = append(out, at)
+	}
+	walk(v, originEdge{blk: at})
+	return out
+}
+
+// underSuccessOf: the origin is reached only after call c succeeded (see guardedBySuccess).
+func underSuccessOf(c *ssa.Call, o originEdge) (bool, string) {
+	errB, okB := errEdges(c)
+	if len(errB) == 0 {
+		return false, "the error result of " + shortCall(c) + " is never tested"
+	}
+	dom := false
+	for _, b := range okB {
+		if b == o.blk || b.Dominates(o.blk) {
+			dom = true
+		}
+	}
+	if !dom {
+		return false, "no success edge of the error test on " + shortCall(c) + " dominates the place the status is chosen"
+	}
+	for _, e := range errB {
+		if blockReach(e, nil)[o.blk] {
+			return false, fmt.Sprintf("the error edge (block %d) of the test on %s reaches the place the status is chosen", e.Index, shortCall(c))
+		}
+	}
+	return true, ""
 }
